@@ -11,8 +11,8 @@
 (* verdict names the first failing clause; INVARIANT Accepted.                                      *)
 EXTENDS Naturals, Sequences, FiniteSets, TLC, Json, IOUtils
 Traces == JsonDeserialize(IOEnv.TRACE_FILE)
-VARIABLES run, i, verdict, amb, tpc, open, hop, lastfork, sent, rcvd, bar, conn, wired
-vars == <<run, i, verdict, amb, tpc, open, hop, lastfork, sent, rcvd, bar, conn, wired>>
+VARIABLES run, i, verdict, amb, tpc, open, hop, lastfork, sent, rcvd, bar, conn, wired, live, kids, kids
+vars == <<run, i, verdict, amb, tpc, open, hop, lastfork, sent, rcvd, bar, conn, wired, live, kids>>
 
 L == 4194304   \* 2^22
 Zero == <<0, 0, 524288>>   \* limbs of 0 + 2^63  (2^63 = 2^19 * 2^44)
@@ -41,13 +41,15 @@ Init == /\ run \in 1..Len(Traces)
         /\ bar = [p \in 0..(Traces[run].m - 1) |-> {}]
         /\ conn = [p \in 0..(Traces[run].m - 1) |-> {}]
         /\ wired = {}
+        /\ live = [p \in 0..(Traces[run].m - 1) |-> {}]     \* coroutines started and not yet finished (own observation)
+        /\ kids = {}                                        \* all child pcs produced by hop so far
 
 HasOwn(p, c) == <<p, c>> \in DOMAIN tpc
 CtxPc(p, c) == IF HasOwn(p, c) THEN tpc[<<p, c>>] ELSE amb[p]
 Labels(s) == {s[k][1] : k \in 1..Len(s)}
 
-\* <<verdict, amb', tpc', open', hop', lastfork', sent', rcvd', bar', conn', wired'>>
-Same == <<"ok", amb, tpc, open, hop, lastfork, sent, rcvd, bar, conn, wired>>
+\* <<verdict, amb', tpc', open', hop', lastfork', sent', rcvd', bar', conn', wired', live'>>
+Same == <<"ok", amb, tpc, open, hop, lastfork, sent, rcvd, bar, conn, wired, live, kids>>
 Fail(v) == [Same EXCEPT ![1] = v]
 SetPc(r, p, c, pc) == IF HasOwn(p, c) THEN [r EXCEPT ![3] = Upd(tpc, <<p, c>>, pc)]
                       ELSE [r EXCEPT ![2] = [amb EXCEPT ![p] = pc]]
@@ -59,14 +61,17 @@ Step(e) ==
          IF <<e.pc[1], e.pc[2], e.pc[3]>> # Inc(cur[1]) \/ e.d # cur[2] THEN Fail("fork-parent-pc")
          ELSE IF e.cd # e.d + 1 THEN Fail("fork-depth")
          ELSE IF key \in DOMAIN hop /\ hop[key] # e.cpc THEN Fail("hop-not-a-function")
-         ELSE IF key \notin DOMAIN hop /\ \E k \in DOMAIN hop : hop[k] = e.cpc THEN Fail("hop-collision-observed")
+         ELSE IF key \notin DOMAIN hop /\ e.cpc \in kids THEN Fail("hop-collision-observed")
          ELSE [SetPc(Same, p, e.ctx, <<Inc(cur[1]), cur[2]>>) EXCEPT
-                  ![5] = Upd(hop, key, e.cpc), ![6] = [lastfork EXCEPT ![p] = <<e.cpc, e.cd>>]]
+                  ![5] = Upd(hop, key, e.cpc), ![6] = [lastfork EXCEPT ![p] = <<e.cpc, e.cd>>],
+                  ![13] = kids \cup {e.cpc}]
     [] e.ev = "task" ->
          IF e.haspc /\ lastfork[p] # <<e.cpc, e.cd>> THEN Fail("task-without-fork")
          ELSE [Same EXCEPT ![3] = (IF e.haspc THEN Upd(tpc, <<p, e.tid>>, <<e.cpc, e.cd>>) ELSE tpc),
                            ![4] = [open EXCEPT ![p] = @ \cup {e.tid}],
-                           ![6] = [lastfork EXCEPT ![p] = <<>>]]
+                           ![6] = [lastfork EXCEPT ![p] = <<>>],
+                           ![12] = [live EXCEPT ![p] = @ \cup {e.tid}]]
+    [] e.ev = "taskdone" -> [Same EXCEPT ![12] = [live EXCEPT ![p] = @ \ {e.tid}]]
     [] e.ev = "reconcile" ->
          IF e.tid \notin open[p] THEN Fail("reconcile-unknown-task")
          ELSE [Same EXCEPT ![4] = [open EXCEPT ![p] = @ \ {e.tid}]]
@@ -87,20 +92,20 @@ Step(e) ==
          ELSE [Same EXCEPT ![11] = wired \cup {<<p, e.peer>>}]
     [] e.ev = "barrier_in" ->
          IF e.d = 0 /\ e.ctx = 0 /\ e.level # Cardinality(open[p]) THEN Fail("pc-level-differs-from-open-tasks")
-         ELSE [Same EXCEPT ![9] = [bar EXCEPT ![p] = IF e.d = 0 THEN open[p] ELSE @]]
+         ELSE [Same EXCEPT ![9] = [bar EXCEPT ![p] = IF e.d = 0 THEN open[p] \cup live[p] ELSE @]]
     [] e.ev = "barrier_out" ->
-         IF e.d = 0 /\ bar[p] \cap open[p] # {} THEN Fail("barrier-returned-with-open-coroutine")
+         IF e.d = 0 /\ bar[p] \cap (open[p] \cup live[p]) # {} THEN Fail("barrier-returned-with-open-coroutine")
          ELSE IF e.d = 0 /\ e.ctx = 0 /\ e.level # Cardinality(open[p]) THEN Fail("pc-level-differs-from-open-tasks")
          ELSE Same
     [] e.ev = "close" ->
-         IF open[p] # {} THEN Fail("connection-closed-with-open-coroutine") ELSE Same
+         IF open[p] # {} \/ live[p] # {} THEN Fail("connection-closed-with-open-coroutine") ELSE Same
     [] e.ev = "set" -> [Same EXCEPT ![10] = [conn EXCEPT ![p] = @ \cup {e.peer}]]
     [] e.ev = "unset" ->
          IF e.peer \notin conn[p] THEN Fail("unset-unknown-connection")
          ELSE [Same EXCEPT ![10] = [conn EXCEPT ![p] = @ \ {e.peer}]]
     [] e.ev = "end" ->      \* run completed on all parties
          IF \E c \in Conns : Labels(sent[c]) # rcvd[<<c[2], c[1]>>] THEN Fail("sent-and-received-labels-differ")
-         ELSE IF \E q \in Party : open[q] # {} THEN Fail("open-coroutine-at-end")
+         ELSE IF \E q \in Party : open[q] # {} \/ live[q] # {} THEN Fail("open-coroutine-at-end")
          ELSE IF \E q \in Party : conn[q] # {} THEN Fail("connection-not-closed")
          ELSE IF wired # Conns THEN Fail("wire-not-checked")
          ELSE IF e.rest # 0 THEN Fail("buffers-not-empty-at-shutdown")
@@ -111,7 +116,7 @@ Next == \/ /\ i <= Len(Traces[run].ev) /\ verdict = "ok"
            /\ LET r == Step(E) IN
               /\ verdict' = r[1] /\ amb' = r[2] /\ tpc' = r[3] /\ open' = r[4] /\ hop' = r[5]
               /\ lastfork' = r[6] /\ sent' = r[7] /\ rcvd' = r[8] /\ bar' = r[9] /\ conn' = r[10]
-              /\ wired' = r[11]
+              /\ wired' = r[11] /\ live' = r[12] /\ kids' = r[13]
            /\ i' = i + 1 /\ run' = run
         \/ /\ (i > Len(Traces[run].ev) \/ verdict # "ok") /\ UNCHANGED vars
 Spec == Init /\ [][Next]_vars
